@@ -9,7 +9,7 @@
     [v_corr]: the model predicts all three observations;
     [v_prop]: the three observations are equal (the property itself: same
     decision, same view, same hand-over);
-    guards 1..8 = C13-F1..F8, evaluated on the queries the pipeline asks. *)
+    guards 1..9 = C13-F1..F9, evaluated on the queries the pipeline asks. *)
 From HV Require Export Base.Prelude Base.GoUrl C09.Model C13.Model C13.Proofs.
 Open Scope string_scope.
 
@@ -58,6 +58,16 @@ Definition value_eqb (a b : value) : bool :=
 Definition handover_eqb (a b : handover) : bool :=
   pairs_eqb (ho_headers a) (ho_headers b) && pairs_eqb (ho_cookies a) (ho_cookies b).
 
+(** model vs observation: the decision is compared as allowed / denied — which status number a
+    denial of a given kind is answered with is C12's subject, not C13's *)
+Definition same_class (x y : Z) : bool := Bool.eqb (Z.eqb x 0) (Z.eqb y 0).
+
+Definition eobs_corr (a b : eobs) : bool :=
+  same_class (eo_status a) (eo_status b) && String.eqb (eo_rule a) (eo_rule b) &&
+  option_eqb (list_eqb value_eqb) (eo_view a) (eo_view b) &&
+  option_eqb handover_eqb (eo_ho a) (eo_ho b) && Bool.eqb (eo_ok a) (eo_ok b).
+
+(** observation vs observation (the property): the entry points answer alike, status included *)
 Definition eobs_eqb (a b : eobs) : bool :=
   Z.eqb (eo_status a) (eo_status b) && String.eqb (eo_rule a) (eo_rule b) &&
   option_eqb (list_eqb value_eqb) (eo_view a) (eo_view b) &&
@@ -135,8 +145,8 @@ Definition wf_case (c : case) : bool :=
 Definition check (fx : fixes) (c : case) : verdict :=
   let '(sl, qs, adds) := asked c in
   let L := k_L c in
-  {| v_corr := wf_case c && eobs_eqb (expected_dec fx c) (k_dec c) && eobs_eqb (expected_prx fx c) (k_prx c) &&
-               eobs_eqb (expected_env fx c) (k_env c);
+  {| v_corr := wf_case c && eobs_corr (expected_dec fx c) (k_dec c) && eobs_corr (expected_prx fx c) (k_prx c) &&
+               eobs_corr (expected_env fx c) (k_env c);
      v_prop := eobs_eqb (k_dec c) (k_prx c) && eobs_eqb (k_dec c) (k_env c) && eo_ok (k_dec c);
      v_guards := guards [
        (1%Z, negb (fx_F1 fx) && existsb (g_F1_query (caps_of c) sl (fx_F4 fx)) qs);
@@ -146,7 +156,8 @@ Definition check (fx : fixes) (c : case) : verdict :=
        (5%Z, existsb (g_F5_query L) qs || g_F5_adds adds);
        (6%Z, negb (fx_F6 fx) && existsb g_F6_query qs);
        (7%Z, negb (fx_F7 fx) && existsb (g_F7_query (decode_of c) L) qs);
-       (8%Z, existsb g_F8_query qs) ] |}.
+       (8%Z, existsb g_F8_query qs);
+       (9%Z, negb (fx_F9 fx) && existsb (g_F9_query L) qs) ] |}.
 
 (** the variant of the model is chosen by what the sentinel requests of the run observed; whether a
     pinned variant is acceptable is decided by findings/C13.json (a guard is only honoured while its
@@ -157,19 +168,20 @@ Definition check_auto (c : case) : verdict := check (k_fx c) c.
     sentinel says (a regression is then an ordinary VIOLATION); the candidate repairs by sentinel *)
 Definition check_f1fixed (c : case) : verdict := check (set_F1 true (k_fx c)) c.
 
-(** /repo at abe584c: all six repairs are in (F1 b2286d8, F2 7c3e9fc, F3 a5ef279, F4 ae6db4f, F6 06faa19,
-    F7 19923cd): the fully repaired variant is expected, whatever the sentinels say *)
-Definition check_repo (c : case) : verdict := check repo_now c.
+(** /repo: the six committed repairs are in (F1 b2286d8, F2 7c3e9fc, F3 a5ef279, F4 ae6db4f, F6 06faa19,
+    F7 19923cd): those are expected whatever the sentinels say (a regression is an ordinary VIOLATION);
+    the candidate repair of C13-F9 by sentinel *)
+Definition check_repo (c : case) : verdict := check (set_F9 (fx_F9 (k_fx c)) all_fixed) c.
 
 (* short constructors for the generated case files *)
-Definition lrq m t h p q hs b pe :=
-  {| l_method := m; l_tls := t; l_host := h; l_rawpath := p; l_query := q; l_hdrs := hs; l_body := b; l_peer := pe |}.
+Definition lrq m t h p q hs b pe pk :=
+  {| l_method := m; l_tls := t; l_host := h; l_rawpath := p; l_query := q; l_hdrs := hs; l_body := b; l_peer := pe; l_pack := pk |}.
 Definition cnd q c := {| cd_q := q; cd_c := c |}.
 Definition stp i ck items := {| st_if := i; st_cookie := ck; st_items := items |}.
 Definition rul id sl az steps probes caps :=
   {| kr_id := id; kr_slashes := sl; kr_authz := az; kr_steps := steps; kr_probes := probes; kr_caps := caps |}.
 Definition hov hs cs := {| ho_headers := hs; ho_cookies := cs |}.
 Definition eob s r v h ok := {| eo_status := s; eo_rule := r; eo_view := v; eo_ho := h; eo_ok := ok |}.
-Definition fxs f1 f2 f3 f4 f6 f7 := {| fx_F1 := f1; fx_F2 := f2; fx_F3 := f3; fx_F4 := f4; fx_F6 := f6; fx_F7 := f7 |}.
+Definition fxs f1 f2 f3 f4 f6 f7 f9 := {| fx_F1 := f1; fx_F2 := f2; fx_F3 := f3; fx_F4 := f4; fx_F6 := f6; fx_F7 := f7; fx_F9 := f9 |}.
 Definition cs fx L r ep ct db de d p e :=
   {| k_fx := fx; k_L := L; k_rule := r; k_escpath := ep; k_ct := ct; k_dec_body := db; k_dec_empty := de; k_dec := d; k_prx := p; k_env := e |}.
